@@ -96,7 +96,7 @@ def verify(alg: str, native_pub, msg: bytes, sig: bytes) -> bool:
 
 def spell(header: dict, rng=None, style=None) -> bytes:
     """A JSON spelling of the header: compact, spaced, indented, key-reordered, escaped."""
-    style = style if style is not None else (rng.randrange(5) if rng else 0)
+    style = style if style is not None else (rng.randrange(6) if rng else 0)
     if style == 0:
         return json.dumps(header, separators=(",", ":")).encode()
     if style == 1:
@@ -108,6 +108,12 @@ def spell(header: dict, rng=None, style=None) -> bytes:
         if rng:
             rng.shuffle(items)
         return json.dumps(dict(items), ensure_ascii=False, separators=(",", ":")).encode("utf-8")
+    if style == 5:
+        # insignificant whitespace OUTSIDE the object (RFC 8259 section 2: ws value ws) - what `echo '{...}' | base64` produces
+        body = json.dumps(header, separators=(",", ":")).encode()
+        pre, post = (rng.choice([(b"", b"\n"), (b"", b" "), (b" ", b""), (b"\t", b""), (b"\r\n", b"\r\n"), (b"  ", b" \n"), (b"", b"\r\n")])
+                     if rng else (b"", b"\n"))
+        return pre + body + post
     s = json.dumps(header, separators=(",", ":"))
     return s.replace("alg", "\\u0061lg", 1).encode()
 
